@@ -219,7 +219,18 @@ func (d *Desc) motif(r *hx.Rand) int {
 			frozenStruct = nd.ID
 		}
 	}
-	switch r.Intn(20) {
+	switch r.Intn(22) {
+	case 20, 21: // L is a value of a dict ONLY in entries that live in overflow buckets of one long chain
+		var kv []Val
+		n := 10 + r.Intn(14)
+		for i := 0; i < n; i++ {
+			v := Atom(int64(i % 5))
+			if i >= 8 && (i%2 == 0 || i == n-1) {
+				v = Ref(L)
+			}
+			kv = append(kv, Atom(int64(5+4096*(i+1))), v)
+		}
+		return d.add(&Node{Kind: "dict", Init: kv})
 	case 18, 19: // a bound method of a HOST-DEFINED mutable value, itself reachable only through the method
 		hb := d.add(&Node{Kind: "hbox", Init: []Val{Ref(L)}})
 		b := d.add(&Node{Kind: "bound", Recv: hb, Method: "append"})
@@ -310,6 +321,17 @@ func Corner() *Desc {
 	d.add(&Node{Kind: "func", Defaults: []Val{Ref(3)}, Captures: []int{4}, Sig: []string{"*", "req1", "d0"}, KwReq: []string{"req1"}})
 	d.add(&Node{Kind: "bound", Recv: 0, Method: "setdefault"})
 	d.add(&Node{Kind: "bound", Recv: 1, Method: "add"})
+	// a dict one bucket chain of which has overflow buckets; ol is a value only there
+	ol := d.add(&Node{Kind: "list", Init: []Val{Atom(6)}})
+	var okv []Val
+	for i := 0; i < 20; i++ {
+		v := Atom(int64(i))
+		if i >= 9 {
+			v = Ref(ol)
+		}
+		okv = append(okv, Atom(int64(5+4096*(i+1))), v)
+	}
+	d.add(&Node{Kind: "dict", Init: okv})
 	// a bound method of a host-defined mutable value that nothing else refers to
 	hl := d.add(&Node{Kind: "list", Init: []Val{Atom(3)}})
 	hb := d.add(&Node{Kind: "hbox", Init: []Val{Atom(4), Ref(hl)}})
@@ -334,7 +356,7 @@ func Corner() *Desc {
 	s2 := d.add(&Node{Kind: "struct", Init: []Val{Atom(1016), Ref(l2)}})
 	d.add(&Node{Kind: "ssum", A: h, B: s2})
 	for i := range d.Nodes {
-		if i == l1 || i == s1 || i == l2 || i == s2 || i == la || i == lb || i == lc || i == hl || i == hb {
+		if i == l1 || i == s1 || i == l2 || i == s2 || i == la || i == lb || i == lc || i == hl || i == hb || i == ol {
 			continue // reachable from the globals only through the sums
 		}
 		d.Globals = append(d.Globals, i)
@@ -456,12 +478,24 @@ func GenWith(r *hx.Rand, shared bool) *Desc {
 		if r.Intn(12) == 0 {
 			pad = 9 + r.Intn(40)
 		}
+		// half of the large tables are SKEWED: keys congruent modulo 4096 have equal low hash
+		// bits (Int.Hash multiplies by an odd constant), so they all go to one bucket chain
+		// and the entries after the eighth live in overflow buckets
+		skew := r.Bool()
 		for i := 0; i < pad; i++ {
+			key := int64(200 + i)
+			if skew && nd.Kind != "list" {
+				key = int64(5 + 4096*(i+1))
+			}
 			switch nd.Kind {
 			case "list", "set":
-				nd.Init = append(nd.Init, Atom(int64(200+i)))
+				nd.Init = append(nd.Init, Atom(key))
 			case "dict":
-				nd.Init = append(nd.Init, Atom(int64(200+i)), Atom(int64(i%7)))
+				v := Atom(int64(i % 7))
+				if i >= 8 && r.Intn(3) == 0 {
+					v = anyVal(id) // a reference stored in an overflow bucket
+				}
+				nd.Init = append(nd.Init, Atom(key), v)
 			}
 		}
 		switch nd.Kind {
